@@ -53,6 +53,11 @@ def model_tasks(case):
             res.append({'name': full, 'task_dep': list(d.get('task_dep', [])) + ['%s:%s' % (full, s['name']) for s in d['subs']],
                         'setup': [], 'calc_dep': [], 'file_dep': [], 'targets': [], 'has_subtask': True, 'params': [],
                         'pos_arg': False, 'delayed': False, 'utd': False})
+        elif d.get('delayed'):
+            # what TaskControl sees before the creator ran: a placeholder whose only dependency is `executed`
+            res.append({'name': full, 'task_dep': [d['delayed_after']] if d.get('delayed_after') else [],
+                        'setup': [], 'calc_dep': [], 'file_dep': [], 'targets': [], 'has_subtask': False, 'params': [],
+                        'pos_arg': False, 'delayed': True, 'utd': False})
         else:
             res.append({'name': full, 'task_dep': list(d.get('task_dep', [])), 'setup': list(d.get('setup', [])),
                         'calc_dep': list(d.get('calc_dep', [])), 'file_dep': sorted(d.get('file_dep', [])),
@@ -232,7 +237,7 @@ def impl_cli(case, workdir):
         with open(SRC_FILE, 'w') as f:
             f.write('src')
         for full, d, grp, is_group in flat_defs(case):
-            for tg in ([] if is_group else d.get('targets', [])):
+            for tg in ([] if is_group else list(d.get('targets', [])) + list(d.get('file_dep', []))):
                 # --single drops the implicit task_dep on the producer of a file_dep: the file must exist anyway
                 with open(tg, 'w') as f:
                     f.write('pre')
@@ -300,6 +305,9 @@ def edges_of(case):
     g = {}
     for full, d, grp, is_group in defs:
         deps = []
+        if d.get('delayed'):
+            g[full] = [d['delayed_after']] if d.get('delayed_after') else []
+            continue
         for dep in d.get('task_dep', []):
             if '*' in dep:
                 deps += [n for n in names if fnmatch.fnmatchcase(n, dep)]
@@ -377,7 +385,7 @@ def gen_taskdef(rng, name, earlier, targets_free, allow_attrs=True):
     return d
 
 
-def gen_tasks(rng):
+def gen_tasks(rng, delayed_ok=False):
     pool = list(rng.choice(NAME_POOLS))
     rng.shuffle(pool)
     n = rng.choice([1, 2, 2, 3, 3, 4, 4, 5])
@@ -386,13 +394,23 @@ def gen_tasks(rng):
     for name in pool[:n]:
         if rng.random() < 0.25:
             g = {'name': name, 'task_dep': [], 'subs': []}
+            if earlier and rng.random() < 0.15:
+                # group attributes given with a `name: None` dict: the group depends on something besides its sub-tasks
+                g['task_dep'] = [rng.choice(earlier + [rng.choice(earlier)[:1] + '*'])]
             for sn in rng.sample(SUB_NAMES, rng.choice([1, 2, 2, 3])):
                 sd = gen_taskdef(rng, sn, earlier, targets_free)
                 g['subs'].append(sd)
             tasks.append(g)
             earlier += [name] + ['%s:%s' % (name, s['name']) for s in g['subs']]
         else:
-            tasks.append(gen_taskdef(rng, name, earlier, targets_free))
+            d = gen_taskdef(rng, name, earlier, targets_free)
+            if delayed_ok and rng.random() < 0.3:
+                # a creator decorated with @create_after: only the api tier drives these cases
+                d.update({'delayed': True, 'delayed_after': rng.choice(earlier) if earlier and rng.random() < 0.6 else None,
+                          'task_dep': [], 'setup': [], 'calc_dep': [], 'targets': [], 'utd': False})
+                tasks.append(d)
+                continue           # nothing may depend on it: its real attributes are unknown until it is created
+            tasks.append(d)
             earlier.append(name)
     # dependencies were drawn from earlier definitions only: shuffle the definition order so that it differs from a
     # topological order
@@ -403,14 +421,14 @@ def gen_tasks(rng):
     defs = flat_defs(case)
     tg_all = [(tg, full) for full, d, grp, is_group in defs if not is_group for tg in d.get('targets', [])]
     for full, d, grp, is_group in defs:
-        if is_group or d.get('utd'):
+        if is_group or d.get('utd') or d.get('delayed'):
             continue
         if tg_all and rng.random() < 0.3:
-            tg, prod = rng.choice(tg_all)
-            if prod != full:
-                d['file_dep'].append(tg)
-                if not is_acyclic(edges_of(case)):
-                    d['file_dep'].remove(tg)
+            for tg, prod in rng.sample(tg_all, min(len(tg_all), rng.choice([1, 1, 2, 3]))):
+                if prod != full:
+                    d['file_dep'].append(tg)
+                    if not is_acyclic(edges_of(case)):
+                        d['file_dep'].remove(tg)
         if rng.random() < 0.1:
             d['file_dep'].append(SRC_FILE)
     return tasks
@@ -463,6 +481,9 @@ def name_like_tokens(rng, case):
         return rng.choice(['*', base[:1] + '*', base + '*', '*' + base[-1:], base[:1] + '?*', '?' * len(base) + '*',
                            base.split(':')[0] + ':*', '*:*', 'zz*', base[:-1] + '*' if len(base) > 1 else 'q*',
                            '*' + base[1:], base[:1] + '*' + base[-1:]])
+    delayed = [f[0] for f in defs if f[1].get('delayed')]
+    if delayed and r < 0.93:
+        return rng.choice(delayed) + rng.choice([':x', ':sub:y', ':'])
     if r < 0.93:
         base = rng.choice(names)
         return rng.choice(['nosuch', base + 'x', base[:-1] or 'zz', '?' * len(base), base + ':nosub', base.upper(),
@@ -490,9 +511,11 @@ def gen_argv(rng, case):
     return argv
 
 
-def gen_case(rng, cli=False):
+def gen_case(rng, delayed_ok=None):
+    if delayed_ok is None:
+        delayed_ok = rng.random() < 0.12
     for _ in range(50):
-        tasks = gen_tasks(rng)
+        tasks = gen_tasks(rng, delayed_ok)
         case = {'tasks': tasks, 'argv': [], 'default': None, 'single': False}
         if valid_case(case):
             break
